@@ -340,6 +340,15 @@ let judge (input : string) (impl : string) (model : string) : verdict =
     else Mismatch ("unreadable subset for a request outside the property's domain: " ^ impl)
   end
   else match parts with
+  | "q" :: _ ->
+    (* CFF2 -> CFF conversion: the outline of the retained glyph must survive (model-independent) *)
+    (match split_on '|' impl with
+     | [src; sub] when starts_with "src:" src && starts_with "sub:" sub ->
+       let a = String.sub src 4 (String.length src - 4) and b = String.sub sub 4 (String.length sub - 4) in
+       if String.length a > 0 && a.[0] = 'E' then Agree           (* the source charstring itself is not drawable *)
+       else if a = b then Agree
+       else Violation ("cff2-outline", "subsetting a CFF2 font to CFF changed the outline of a retained glyph: source " ^ a ^ ", subset " ^ b)
+     | _ -> if impl = "nofixture" then Agree else Mismatch ("unreadable q report: " ^ impl))
   | "g" :: m :: tbl :: idss :: _ ->
     if impl = model then Agree
     else if starts_with "ok:" impl then begin
